@@ -47,19 +47,33 @@ def predicates(spec) -> dict:
     return d
 
 
+SIZES2 = {"i": 3, "j": 2, "k": 3, "u": 2, "w": 3, "m": 2}  # other sizes for the mapped axes; internal axes keep their (declared) sizes
+
+
 def run_case(case):  # noqa: C901, PLR0912
     spec, form, storage = case["spec"], case.get("form", "auto"), case.get("storage", "dict")
     out = []
     pred = predicates(spec)
+    try:
+        p = gen_map.build(spec)
+    except Exception as e:  # noqa: BLE001
+        return [(findings.exc_sig(e, phase="construct", **pred), f"Pipeline(...) refused a valid spec {[gen_map.spec_str(f) for f in spec['funcs']]}: {type(e).__name__}: {str(e)[:120]}")]
+    # "reuse": a second map on the SAME Pipeline object with other input sizes (state kept between runs must not leak)
+    runs = [(spec, "first")] + ([({**spec, "sizes": SIZES2}, "second-run-on-same-pipeline")] if case.get("reuse") else [])
+    for rspec, which in runs:
+        out.extend(_one_map(p, rspec, form, storage, bool(case.get("folder")), {**pred, **({"reuse": True} if which != "first" else {})}))
+        if out:
+            break
+    return out
+
+
+def _one_map(p, spec, form, storage, with_folder, pred):  # noqa: C901, PLR0912
+    out = []
     inputs = gen_map.make_inputs(spec, form)
     exp, calls = gen_map.ref_map(spec, inputs)
-    folder = boot.mkscratch("c01-") if case.get("folder") else None
+    folder = boot.mkscratch("c01-") if with_folder else None
     try:
         terms.LOG.clear()
-        try:
-            p = gen_map.build(spec)
-        except Exception as e:  # noqa: BLE001
-            return [(findings.exc_sig(e, phase="construct", **pred), f"Pipeline(...) refused a valid spec {[gen_map.spec_str(f) for f in spec['funcs']]}: {type(e).__name__}: {str(e)[:120]}")]
         try:
             with contextlib.redirect_stdout(io.StringIO()), warnings.catch_warnings():
                 warnings.simplefilter("ignore")
@@ -103,6 +117,9 @@ def cases_for(spec, tier):
     n = len(spec["funcs"])
     has_r1 = any(len(a) == 1 for a in spec["roots"].values())
     yield {"spec": spec, "form": "list", "storage": "dict"}
+    if n == 1 or tier == "thorough" or len(spec["funcs"][1]["params"]) == 1:
+        # the same Pipeline object mapped twice with different input sizes
+        yield {"spec": spec, "form": "list", "storage": "dict", "reuse": True}
     if n == 1:
         if has_r1:
             yield {"spec": spec, "form": "ndarray", "storage": "dict"}
